@@ -34,6 +34,9 @@ def check(model, tier):
     from ..rules import mergeeval as _mergeeval
 
     _mergeeval.r05_9_merge_semantics(ctx)
+    from ..rules import sqlplace as _sqlplace
+
+    _sqlplace.r_refusals_only_where_needed(ctx, "R05.10")  # merging into a Select never rejects a valid operation
     from ..rules import structure as _structure
 
     _structure.r14_5_noop_identity(ctx)  # an elided operation returns the target itself, in the target's own engine
